@@ -187,6 +187,63 @@ func (r *c18Run) genOp(root any) c18Op {
 	return op
 }
 
+// nodeKindAt: the kind of the node a definite path selects in a Go tree ("-" when the path is not
+// definite, "absent" when it selects nothing).
+func nodeKindAt(root any, p ppath) string {
+	cur := root
+	for _, s := range p {
+		switch s.kind {
+		case 'k':
+			m, ok := cur.(map[string]any)
+			if !ok {
+				return "absent"
+			}
+			c, has := m[s.key]
+			if !has {
+				return "absent"
+			}
+			cur = c
+		case 'x':
+			a, ok := cur.([]any)
+			if !ok {
+				return "absent"
+			}
+			i := s.idx
+			if i < 0 {
+				i += len(a)
+			}
+			if i < 0 || i >= len(a) {
+				return "absent"
+			}
+			cur = a[i]
+		default:
+			return "-"
+		}
+	}
+	switch t := cur.(type) {
+	case nil:
+		return "null"
+	case bool:
+		if t {
+			return "true"
+		}
+		return "false"
+	case string:
+		return "str"
+	case []any:
+		if len(t) == 0 {
+			return "empty-arr"
+		}
+		return "arr"
+	case map[string]any:
+		if len(t) == 0 {
+			return "empty-obj"
+		}
+		return "obj"
+	}
+	return "number"
+}
+
 // execOp performs one operation on the bag and observes it.
 func (r *c18Run) execOp(b *flavors.Instance, op c18Op) c18OpObs {
 	p := parsePath(op.Path)
@@ -194,6 +251,9 @@ func (r *c18Run) execOp(b *flavors.Instance, op c18Op) c18OpObs {
 		fmt.Fprintf(os.Stderr, "trace %s %s %s on %s\n", op.Op, p.show(), op.Value, canonAny(b.Any))
 	}
 	ob := c18OpObs{op: op, path: p, steps: p.stepKinds(b.Any), valKind: "-"}
+	if op.Op == "H" || op.Op == "G" || op.Op == "N" || op.Op == "A" || op.Op == "W" {
+		ob.valKind = nodeKindAt(b.Any, p) // what a definite query path points at (null is a value like any other)
+	}
 	pobj := pathObject(p, op.Mode&2 == 0, op.Mode&8 == 0)
 	binds := map[string]slip.Object{"c18-b": b, "c18-p": pobj}
 	send := op.Mode&1 == 1
